@@ -619,6 +619,15 @@ func vtC10GenCPUSet(r *rand.Rand) (string, []int64) {
 		pods = append(pods, lab)
 		pods = append(pods, vtC10EncList(cp)...)
 	}
+	if nq >= 1 && r.Intn(14) == 0 && n > 0 {
+		// inconsistent annotations: one more pod lists cpus that an earlier pod may already own
+		// (a terminated pod whose annotation is still there); when the earlier one is LSE and the
+		// later one is not, this is the known-finding shape sig=2
+		label = "cpuset-overlap"
+		pods[0]++
+		pods = append(pods, int64(r.Intn(6)))
+		pods = append(pods, vtC10EncList(vtC10Subset(r, ids, 1+r.Intn(3)))...)
+	}
 	resKind := int64(r.Intn(2))
 	res := []int64{}
 	if resKind == 1 {
@@ -673,7 +682,7 @@ func vtC10GenCPUSet(r *rand.Rand) (string, []int64) {
 	default:
 		old = vtC10Subset(r, ids, 1+r.Intn(n+1))
 	}
-	if len(old) == 0 {
+	if len(old) == 0 && r.Intn(3) != 0 {
 		old = []int64{int64(r.Intn(4))}
 	}
 	policy := vtB(r.Intn(4) == 0)
